@@ -483,6 +483,9 @@ def _stats_of(tree):
 
 def run_case(prop, case):
     import cotengra as ctg
+    from sim import seams as _seams
+
+    _seams.hermetic_reset()
 
     _register()
     log = EventLog()
